@@ -48,7 +48,8 @@ Definition sview := (path * (kind * N * N))%type.        (* kind, perm, size as 
 Record case := { k_mode : N; k_cfg : cfg; k_init : list dump_entry; k_paths : list (N * path); k_ops : list cop;
                  k_final : list dump_entry; k_hist : list (N * list sview); k_probe : list (obs * option obs);
                  k_table : list (N * path); k_issued : list (N * path);
-                 k_acsize : N; k_dcsize : N; k_gor0 : N; k_gor1 : N; k_deadlock : bool; k_panic : bool }.
+                 k_acsize : N; k_dcsize : N; k_gor0 : N; k_gor1 : N; k_deadlock : bool; k_panic : bool;
+                 k_race : bool (* the Go race detector reported a data race while this history ran (-race builds) *) }.
 
 (* ---------- symbolic handles ---------- *)
 Definition sym_path (paths : list (N * path)) (h : N) : option path :=
@@ -314,10 +315,12 @@ Definition table_ok (K : case) : bool :=
 
 Definition st_deadlock : N := 9001.   Definition st_panic : N := 9002.   Definition st_probe : N := 9003.
 Definition st_table : N := 9004.      Definition st_cachesize : N := 9005. Definition st_goroutines : N := 9006.
+Definition st_race : N := 9009.
 Definition st_nolin : N := 9007.      Definition st_undecided : N := 9008.
 
 Definition quiescent_check (K : case) : list (N * N) :=
   (if k_panic K then [(st_panic, code_specfail)] else []) ++
+  (if k_race K then [(st_race, code_specfail)] else []) ++
   (if table_ok K then [] else [(st_table, code_specfail)]) ++
   (if (k_acsize K <=? attr_cap (k_cfg K)) && (k_dcsize K <=? dir_cap (k_cfg K)) then [] else [(st_cachesize, code_specfail)]) ++
   (if k_gor1 K <=? k_gor0 K then [] else [(st_goroutines, code_specfail)]) ++
